@@ -465,4 +465,77 @@ theorem bounded_step {N : Nat} {v v' : View} {e e' : Env} {a : Act}
   | unsched n is => simp only [dec, inc] at hc; omega
   | register n => simp only [dec, inc] at hc; omega
 
+theorem isOut_legal {a : Act} (h : IsOut a) (v : View) : Legal v a := by
+  cases a <;> simp_all [IsOut, Legal]
+
+theorem nodup_out_run {v v' : View} {e e' : Env} {acts : List Act}
+    (hn : v.all.Nodup) (hp : ∀ a ∈ acts, IsOut a) (h : run v e acts = some (v', e')) : v'.all.Nodup := by
+  induction acts generalizing v e with
+  | nil => simp [run] at h; obtain ⟨rfl, _⟩ := h; exact hn
+  | cons a t ih =>
+    simp only [run] at h
+    cases ha : apply v e a with
+    | none => simp [ha] at h
+    | some p =>
+      obtain ⟨v1, e1⟩ := p
+      simp only [ha] at h
+      have hout := hp a (by simp)
+      have h1 := nodup_step hn (isOut_legal hout v) (by intro i hi; subst hi; simp [IsOut] at hout) ha
+      exact ih h1 (fun a' ha' => hp a' (by simp [ha'])) h
+
+theorem bounded_out_run {N : Nat} {v v' : View} {e e' : Env} {acts : List Act}
+    (hb : Bounded N v) (hp : ∀ a ∈ acts, IsOut a) (h : run v e acts = some (v', e')) : Bounded N v' := by
+  induction acts generalizing v e with
+  | nil => simp [run] at h; obtain ⟨rfl, _⟩ := h; exact hb
+  | cons a t ih =>
+    simp only [run] at h
+    cases ha : apply v e a with
+    | none => simp [ha] at h
+    | some p =>
+      obtain ⟨v1, e1⟩ := p
+      simp only [ha] at h
+      have hout := hp a (by simp)
+      have h1 := bounded_step hb (isOut_legal hout v) (by intro i hi; subst hi; simp [IsOut] at hout)
+        (by intro t' ht; subst ht; simp [IsOut] at hout) ha
+      exact ih h1 (fun a' ha' => hp a' (by simp [ha'])) h
+
+/-- an environment-driven act followed by scheduler-initiated acts -/
+theorem nodup_head_out {v v' : View} {e e' : Env} {a : Act} {acts : List Act}
+    (hn : v.all.Nodup) (hl : Legal v a) (hr : ∀ i, a = .requeue i → i ∉ v.all)
+    (hp : ∀ x ∈ acts, IsOut x) (h : run v e (a :: acts) = some (v', e')) : v'.all.Nodup := by
+  simp only [run] at h
+  cases ha : apply v e a with
+  | none => simp [ha] at h
+  | some p =>
+    obtain ⟨v1, e1⟩ := p
+    simp only [ha] at h
+    exact nodup_out_run (nodup_step hn hl hr ha) hp h
+
+theorem bounded_head_out {N : Nat} {v v' : View} {e e' : Env} {a : Act} {acts : List Act}
+    (hb : Bounded N v) (hl : Legal v a) (hr : ∀ i, a = .requeue i → i < N) (hs : ∀ t, a = .start t → t = N)
+    (hp : ∀ x ∈ acts, IsOut x) (h : run v e (a :: acts) = some (v', e')) : Bounded N v' := by
+  simp only [run] at h
+  cases ha : apply v e a with
+  | none => simp [ha] at h
+  | some p =>
+    obtain ⟨v1, e1⟩ := p
+    simp only [ha] at h
+    exact bounded_out_run (bounded_step hb hl hr hs ha) hp h
+
+theorem index_lt_of_ok {τ : Type} [DecidableEq τ] {col : List τ} {t : τ} {idx : Nat}
+    (h : PyList.index col t = .ok idx) : idx < col.length := by
+  induction col generalizing idx with
+  | nil => simp [PyList.index] at h
+  | cons a r ih =>
+    simp only [PyList.index] at h
+    split at h
+    · simp at h; subst h; simp
+    · cases hr : PyList.index r t with
+      | error err => simp [hr, Except.map] at h
+      | ok j =>
+        simp [hr, Except.map] at h
+        subst h
+        have := ih hr
+        simp; omega
+
 end Xdist.Contract
